@@ -150,7 +150,33 @@ theorem nToAssign_repaired_witness : ∀ fuel, nToAssign fuel 1 [0] [1] = some [
   intro fuel
   cases fuel <;> simp [nToAssign, assignIter, assignInit, canGrow, ltB]
 
+/-- **Counterexample for the ranking before repair 79ce7853**: two candidates whose inner utilities
+are both `-inf` (TypiClust), chosen sample 0.  `np.nanmax(row) + 1 = -inf` does not lift the chosen
+sample: it gets ordinal rank 1, *below* the other sample (rank 2), so the wrapper served the wrong
+sample first (and later returned duplicate / unavailable pairs). -/
+theorem rankRowOld_infinite_counterexample :
+    rankRowOld Ext.negInf Ext.fin [some Ext.negInf, some Ext.negInf] 0 = [some (.fin 1), some (.fin 2)] := by
+  decide
+
+/-- the repaired ranking on the same input: the chosen sample gets `n + 1 = 3`, above every ordinal rank -/
+theorem rankRow_repaired_witness :
+    rankRow Ext.negInf Ext.fin [some Ext.negInf, some Ext.negInf] 0 = [some (.fin 3), some (.fin 2)] := by
+  decide
+
 end Regressions
+
+/-- **The chosen sample is ranked strictly first, for all utilities** (also `±inf`; no arithmetic on the
+utilities is involved any more): in the rank row built by `_get_order_preserving_s_query` the chosen
+sample has rank `n + 1` and every other entry an ordinal rank `≤ n`. -/
+theorem chosen_rank_is_top {α : Type} [LinearOrder α] (ninf : α) (row : List (Option α)) (chosen i : Nat)
+    (hne : i ≠ chosen) :
+    chosenRank row.length chosen (ordRank (row.map (fillNaN ninf)) i) i <
+      chosenRank row.length chosen (ordRank (row.map (fillNaN ninf)) chosen) chosen := by
+  have := ordRank_le_length (row.map (fillNaN ninf)) i
+  simp only [List.length_map] at this
+  simp only [chosenRank, if_neg hne, if_true]
+  omega
+
 
 /-- The precondition holds whenever every chosen sample has an available annotator and the batch is
 not larger than the number of chosen samples (always the case for `candidates`/`annotators` given as
